@@ -46,14 +46,14 @@ async def s_mixed(c):
 
 
 SCRIPTS = [s_list, s_upload, s_download, s_meta, s_mixed]
-CUTS = ["vanish", "close"]
+CUTS = ["vanish", "close", "ctrl_reset"]  # ctrl_reset: only the control connection dies, data connections stay open and silent
 
 
 def run(si, cut_i, k, pool, measure=False):
     """real Client against the real Server over SimNet; at loop iteration k either every client transport vanishes or
     server.close() is called.  -> oracle verdict"""
     hb.KEY = ""
-    si, cut_i, k = hb.conc(si, 0, len(SCRIPTS) - 1), hb.conc(cut_i, 0, 1), hb.conc(k, 0, 400)
+    si, cut_i, k = hb.conc(si, 0, len(SCRIPTS) - 1), hb.conc(cut_i, 0, 2), hb.conc(k, 0, 400)
     cut = CUTS[cut_i]
     loop = hb.new_loop()
     net = simnet.SimNet()
@@ -83,10 +83,14 @@ def run(si, cut_i, k, pool, measure=False):
         # wait until the cut has fired and everything has gone quiet, or the script finished
         while not (ct.done() or state["fired"]):
             await asyncio.sleep(1)
-        if state["fired"] and cut == "vanish":
+        if state["fired"] and cut in ("vanish", "ctrl_reset"):
             ct.cancel()
         if state["close_task"] is not None:
             await state["close_task"]
+            # "closing the server always completes and leaves no task ... behind": checked the moment close() returns
+            me = asyncio.current_task()
+            state["tasks_at_close"] = [t for t in asyncio.all_tasks() if t is not me and t is not ct and not t.done()]
+            state["transports_at_close"] = len(net.open_server_transports())
         state["iters"] = loop.iterations - state["armed"]
         await asyncio.sleep(100)  # > wait_future_timeout: everything that is going to happen has happened
         return ct
@@ -98,6 +102,11 @@ def run(si, cut_i, k, pool, measure=False):
             state["fired"] = True
             if cut == "vanish":
                 net.client_vanish()
+            elif cut == "ctrl_reset":
+                net.dead_sides.add("client-ctrl")
+                for t in list(net.transports):
+                    if t.side == "client" and t.remote[1] == 21:
+                        t.vanish()
             else:
                 state["close_task"] = asyncio.ensure_future(server.close())
 
@@ -113,6 +122,12 @@ def run(si, cut_i, k, pool, measure=False):
     if measure:
         return state["iters"]
     hb.path_done("c12", SCRIPTS[si].__name__ + ":" + cut + (":fired" if state["fired"] else ":late"))
+    if state.get("tasks_at_close"):
+        hb.KEY = "task-left-when-close-returned"
+        return False
+    if state.get("transports_at_close"):
+        hb.KEY = "socket-left-when-close-returned"
+        return False
     ok = _ledger(server, net, pool, server_closed=(state["close_task"] is not None))
     if not ok:
         return False
